@@ -137,6 +137,8 @@ def run(ctx):
     rnd = random.Random(ctx.seed)
     if ctx.quick:
         ctx.expect_ok(run_tlc('Interleave_MC', MC_CFG % ('1, 2', 3, A7, 'ok'), ctx.workdir, name='il_2x3', timeout=1200))
+        # records of one thread that NAME the other thread (terminate, sampler thread-info) between its pairs
+        ctx.expect_ok(run_tlc('Interleave_MC', MC_CFG % ('1, 2', 2, A10, 'ok'), ctx.workdir, name='il_2x2_a10', timeout=1200))
     else:
         ctx.expect_ok(run_tlc('Interleave_MC', MC_CFG % ('1, 2', 3, A10, 'ok'), ctx.workdir, name='il_2x3_a10',
                               timeout=7200))
@@ -146,10 +148,11 @@ def run(ctx):
                                  name='neg_sharedslot', timeout=600, allow_error=True),
                          'one parser-wide last new-thread/exec slot')
     # ---- spec -> code
-    r = run_tlc('Interleave_MBT', MBT_CFG % ('1, 2', 2, A7 if ctx.quick else A10), ctx.workdir, name='il_mbt',
-                workers=8, timeout=3000)
+    r = run_tlc('Interleave_MBT', MBT_CFG % ('1, 2', 2, A10), ctx.workdir, name='il_mbt', workers=8, timeout=3000)
     ctx.add_tlc(r, counts=False)
     behs = [json.loads(t[1]) for t in r.tuples('BEH')]
+    if ctx.quick:        # every schedule of total length <= 3, every 4th of the longer ones
+        behs = [b for i, b in enumerate(behs) if len(b['sched']) <= 3 or i % 4 == 0]
     tuples, info = simulate_behaviours('Interleave_MBT', MBT_CFG % ('1, 2, 3', 2, A7), ctx.workdir,
                                        2000 if ctx.quick else 40000, name='il_sim', depth=14, seed=ctx.seed + 5)
     ctx.tlc_runs.append(info)
